@@ -369,6 +369,22 @@ func CmdCheck(args []string) int {
 	for _, v := range vacuous {
 		fmt.Printf("UNDECIDED property=%s vacuous: false is provable at %s\n", *prop, v)
 	}
+	{
+		// the slowest discharged obligations: anything near the time-out is a stability risk
+		var ds []*Obligation
+		for _, o := range all {
+			if o.Status == "discharged" && o.Seconds >= 2 {
+				ds = append(ds, o)
+			}
+		}
+		sort.Slice(ds, func(i, j int) bool { return ds[i].Seconds > ds[j].Seconds })
+		for i, o := range ds {
+			if i >= 8 {
+				break
+			}
+			fmt.Printf("  slow: %.1fs %s (%s)\n", o.Seconds, o.Name, o.Solver)
+		}
+	}
 	fmt.Printf("property=%s tier=%s functions=%d obligations=%d discharged=%d known=%d violations=%d undecided=%d retried=%d wall=%.1fs (load %.1fs, vcgen %.1fs, solve %.1fs)\n",
 		*prop, *tier, len(funcs), counted, discharged, len(knownHit), len(violations), len(undecided)+len(toolErrs)+len(vacuous), retried, time.Since(t0).Seconds(), loadS, genS, solveS)
 	if len(violations) > 0 {
